@@ -627,7 +627,15 @@ def obj_getattr(ip, obj, name):
   h = obj.attrs.get("__getattr__")
   if h is not None:
     return h(ip, obj, name)
+  if name in EXT_ATTR_DEFAULTS and "__base_kwargs__" in obj.attrs:
+    # attribute that the external (Keras) base class sets from its own default when the subclass does not pass it
+    return EXT_ATTR_DEFAULTS[name]
   return NotImplemented
+
+
+EXT_ATTR_DEFAULTS = {"dilation_rate": (1, 1), "groups": 1, "trainable": True, "dtype": "float32",
+                     "data_format": "channels_last", "padding": "valid", "strides": (1, 1), "output_padding": None,
+                     "activation": None}
 
 
 def obj_getitem(ip, obj, idx):
